@@ -21,6 +21,7 @@ EXPLANATION = (
     " C06.H2 selection-emptied: when the selection is written into self.hs_disclosures through an out-parameter, the field is emptied (clear / assignment of an empty vector) on every path before the selection call. C06.H2/H3 also know the index form of the positional pairing (`for i in 0..min(a.len(), b.len())` with both lists indexed by the loop's own item)."
     " C06.H2 selection-verbatim: the selection argument of the selection entry is create_presentation's own selection parameter through identity conversions only (nothing removed from, added to or rewritten in the caller's selection before the walk)."
     " A6 pruning keeps a switch target that the assumed kind shares with other kinds (`Bool(true) | Number(_) | Null => ..`)."
+    " C06.H2 json-disclosures-always: every path to the serialisation of the JSON envelope passes the whole copy of the selected list (clause shared with C10.F3)."
 )
 ASSUMPTIONS = [
     "hash_to_disclosure maps digest -> the presented string (C03.V1)",
